@@ -297,7 +297,9 @@ func (ss *sess) setup(c *cfg, kinds []int) bool {
 				return false
 			}
 		case kHook:
-			f.name = fmt.Sprintf("rh%d", c.n%2)
+			// never reused: see checks/c05 hookName (sender goroutine of a deleted
+			// hook vs. a same-named successor)
+			f.name = fmt.Sprintf("rh%d_%d", ss.wid, c.n)
 			path := "/" + f.name
 			ss.ep.Forget(path)
 			f.stream = ss.ep.Stream(path)
@@ -333,6 +335,7 @@ func (ss *sess) teardown(c *cfg) {
 			}
 		case kHook:
 			ss.do("DELHOOK", f.name)
+			ss.ep.Forget("/" + f.name)
 		case kLive:
 			f.live.Close()
 		}
